@@ -140,9 +140,10 @@ def routeSearch (s : Store) (base : Bytes) : SearchRoute :=
   else if s.groupDN.isEmpty || equalFold base s.groupDN then .groups
   else .generic
 
-/-- the search handlers: result code and the entries written, in order -/
-def search (s : Store) (base filter : Bytes) : Nat × List Entry :=
-  match routeSearch s base with
+/-- the three search handlers (`handleSearchUsers`, `handleSearchGroups`, `handleSearchGeneric`): result code and
+    the entries written, in order -/
+def searchVia (s : Store) (r : SearchRoute) (base filter : Bytes) : Nat × List Entry :=
+  match r with
   | .users =>
     let es := (findIdx filter s.users).filterMap (s.users[·]?)
     if es.isEmpty then (ResultNoSuchObject, []) else (ResultSuccess, es)
@@ -155,5 +156,9 @@ def search (s : Store) (base filter : Bytes) : Nat × List Entry :=
     let f := if containsBytes base s.userDN then paren base else filter
     let es := (findIdx f s.users).filterMap (s.users[·]?) ++ (findIdx f s.groups).filterMap (s.groups[·]?)
     if es.isEmpty then (ResultNoSuchObject, []) else (ResultSuccess, es)
+
+/-- a search as the directory answers it: the mux's choice of handler, then that handler -/
+def search (s : Store) (base filter : Bytes) : Nat × List Entry :=
+  searchVia s (routeSearch s base) base filter
 
 end Directory
